@@ -1707,6 +1707,9 @@ func (w *transformingWriter) Write(data []byte) (n int, err error) {
 			w.writingEnvelope = false
 		} else {
 			if err := w.flushMessage(); err != nil {
+				// The message's buffer may have been swapped for another one and
+				// released on the way: w.buffer must not be used again.
+				w.err = err
 				w.rw.reportError(err)
 				return written, err
 			}
@@ -1726,7 +1729,7 @@ func (w *transformingWriter) Close() error {
 		if err := w.flushMessage(); err != nil {
 			w.rw.reportError(err)
 		}
-	} else if w.buffer != nil && (w.buffer.Len() > 0 || (!w.writingEnvelope && w.expectingBytes > 0)) {
+	} else if w.err == nil && w.buffer != nil && (w.buffer.Len() > 0 || (!w.writingEnvelope && w.expectingBytes > 0)) {
 		// Unfinished body!
 		if w.writingEnvelope {
 			w.rw.reportError(fmt.Errorf("handler only wrote %d out of %d bytes of message envelope", w.buffer.Len(), envelopeLen))
